@@ -61,6 +61,20 @@ register("C03", "props.c03", ["ValidaProofs.C03"], 1500, 40000,
 register("C04", "props.c04", ["ValidaProofs.C04"], 1500, 40000,
          "as C03 plus a random datum modifier x multiplicity modifier applied in a random order; distinct = (length, concrete?, "
          "none/one/many, datum modifier, multiplicity modifier); non-trivial = the selection is non-empty")
+register("C05", "props.c05", ["ValidaProofs.C05"], 1500, 40000,
+         "one case = a rule (path of 0-3 parts, value-kind condition tree of depth<=2, no cast) tested on a document grown along "
+         "its path; distinct = (#parts, tested, valid, min(#failures,3), cast) tuples; non-trivial = tested and not valid")
+register("C06", "props.c06", ["ValidaProofs.C06"], 1000, 25000,
+         "one case = a cast-free schema of 0-5 (thorough 0-8) generated rules validated on a document grown along one rule's path, "
+         "and the same rules in a seeded permutation; distinct = (#rules, valid, min(#failures,3), min(#tested,3)); "
+         "non-trivial = at least two rules of which some but not all are valid")
+register("C07", "props.c07", ["ValidaProofs.C07"], 1000, 25000,
+         "as C06 with 40% of the rules declaring str->bool / str->int casts, callable arguments of the expected kinds, and half of "
+         "the documents drawn independently of the rules (type-hostile: strings where numbers are expected, None, empty containers, "
+         "uncastable strings, nodes inside lists); distinct as C06 plus cast?; non-trivial as C06")
+register("C15", "props.c15", ["ValidaProofs.C15"], 1000, 25000,
+         "half schema validations with 80% cast rules, half single rule tests with 90% cast rules, over documents holding castable and "
+         "uncastable strings under keys of every type and list indices; distinct as C05/C06 tuples; non-trivial as there")
 
 
 def log(msg):
